@@ -66,6 +66,8 @@ fn process(head: &str, text: &str) -> Value {
             let mut results = vec![];
             let mut parsed = true;
             let mut pairs: Option<Vec<String>> = None;
+            let mut ctx: Vec<u64> = vec![];
+            let mut ctx_names: Vec<(String, u64)> = vec![];
             for c in arg.split(',').filter(|s| !s.is_empty()) {
                 let cfg = Cfg(c.parse::<u32>().unwrap_or(0));
                 let t0 = Instant::now();
@@ -77,6 +79,10 @@ fn process(head: &str, text: &str) -> Value {
                 }
                 if pairs.is_none() {
                     pairs = Some(v.kind_pairs.clone());
+                    ctx = v.parent_ctx.clone();
+                    if text.len() < 4000 {
+                        ctx_names = v.parent_ctx_names.clone();
+                    }
                 }
                 results.push(json!({
                     "cfg": cfg.0,
@@ -86,7 +92,7 @@ fn process(head: &str, text: &str) -> Value {
                     "out_hash": hash(&v.out),
                 }));
             }
-            json!({"parsed": parsed, "results": results, "pairs": pairs.unwrap_or_default()})
+            json!({"parsed": parsed, "results": results, "pairs": pairs.unwrap_or_default(), "ctx": ctx, "ctx_names": ctx_names})
         }
         "lb" => cases::lb_case(arg, text),
         _ => json!({"error": "unknown op"}),
@@ -266,6 +272,9 @@ fn main() {
     let mut adj_family: BTreeMap<String, (u64, u64)> = BTreeMap::new(); // generated, error-free
     let mut pairs_adj: std::collections::BTreeSet<String> = Default::default();
     let mut pairs_other: std::collections::BTreeSet<String> = Default::default();
+    let mut ctx_adj: std::collections::BTreeSet<u64> = Default::default();
+    let mut ctx_other: std::collections::BTreeSet<u64> = Default::default();
+    let mut ctx_name_of: BTreeMap<u64, String> = BTreeMap::new();
     let mut kept_by_sig: BTreeMap<String, u64> = BTreeMap::new();
     std::fs::create_dir_all(outdir.join("failing")).unwrap();
     for (j, o) in jobs.iter().zip(outcomes.iter()) {
@@ -283,6 +292,18 @@ fn main() {
                 e.1 += 1;
                 if is_adj {
                     adj_family.entry(j.kind[10..].to_string()).or_default().1 += 1;
+                }
+                for t in v["ctx"].as_array().unwrap_or(&vec![]) {
+                    if let Some(t) = t.as_u64() {
+                        if is_adj { ctx_adj.insert(t); } else { ctx_other.insert(t); }
+                    }
+                }
+                if is_adj {
+                    for nm in v["ctx_names"].as_array().unwrap_or(&vec![]) {
+                        if let (Some(n), Some(k)) = (nm[0].as_str(), nm[1].as_u64()) {
+                            ctx_name_of.entry(k).or_insert_with(|| n.to_string());
+                        }
+                    }
                 }
                 for p in v["pairs"].as_array().unwrap_or(&vec![]) {
                     if let Some(p) = p.as_str() {
@@ -396,6 +417,9 @@ fn main() {
         cases::write_cases(&outdir, thorough, &corpus, &mut rng, n_workers)
     };
 
+    let np_adj: std::collections::BTreeSet<u64> = ctx_adj.iter().map(|t| t / 1000).collect();
+    let np_other: std::collections::BTreeSet<u64> = ctx_other.iter().map(|t| t / 1000).collect();
+    let np_sample: Vec<String> = np_adj.difference(&np_other).filter_map(|k| ctx_name_of.get(k).cloned()).take(60).collect();
     let summary = json!({
         "seed": seed, "tier": args[1],
         "corpus_inputs": corpus.len(),
@@ -422,6 +446,13 @@ fn main() {
             "token_kind_pairs_other_inputs": pairs_other.len(),
             "token_kind_pairs_only_in_adjacency_inputs": pairs_adj.difference(&pairs_other).count(),
             "token_kind_pairs_total": pairs_adj.union(&pairs_other).count(),
+            "node_parent_pairs_adjacency_inputs": np_adj.len(),
+            "node_parent_pairs_other_inputs": np_other.len(),
+            "node_parent_pairs_only_in_adjacency_inputs": np_adj.difference(&np_other).count(),
+            "node_parent_grandparent_triples_adjacency_inputs": ctx_adj.len(),
+            "node_parent_grandparent_triples_other_inputs": ctx_other.len(),
+            "node_parent_grandparent_triples_only_in_adjacency_inputs": ctx_adj.difference(&ctx_other).count(),
+            "sample_node_parent_pairs_only_in_adjacency_inputs": np_sample,
             "sample_pairs_only_in_adjacency_inputs": pairs_adj.difference(&pairs_other).take(40).cloned().collect::<Vec<_>>(),
         },
         "total_s": t_start.elapsed().as_secs_f64(),
